@@ -54,7 +54,7 @@ def site_records(gene, coverage, positions, var_index):
             good = sum(1 for q in quals if _is_good(q, profile))
             ops.append({
                 "op": o, "good": good, "low": len(quals) - good, "ins": o.startswith("ins"),
-                "var": var_index.get((pos, o), 0), "tab": tab.get(o, []),
+                "var": var_index.get((pos, o), 0), "tab": tab.get(o, []), "elig": True,
             })
         recs.append({"pos": pos, "ops": ops})
     return recs
@@ -153,3 +153,67 @@ def cn_case(cid, gene, profile, configs, max_cn, region_cov, fusion_support, res
                     "cfgs": sorted(idx[n] for n, k in s.solution.items() for _ in range(k))})
     return {"id": cid, "p": p, "M": int(max_cn), "regs": regs, "cfgs": cfgs, "pseudo": has_pseudo,
             "fs": bool(fusion_support), "result": res, "raised": raised, "nU": nU}
+
+
+# --------------------------------------------------------------------------- minor
+def minor_case(cid, gene, coverage, major_sol, result, enumerate_all=True, planted=None, raised=""):
+    """Case record of spec/MinorModel.tla for one estimate_minor call with ONE major solution."""
+    called = natsorted({sa.major for sa in major_sol.solution})
+    M = set()
+    for a in called:
+        M |= {(m.pos, m.op) for m in gene.alleles[a].func_muts}
+        for mi in gene.alleles[a].minors.values():
+            M |= {(m.pos, m.op) for m in mi.neutral_muts}
+    M |= {(m.pos, m.op) for m in major_sol.added}
+    M |= {(m.pos, m.op) for m in gene.random_mutations}
+    vars_ = sorted(M)
+    var_idx = {v: i + 1 for i, v in enumerate(vars_)}
+    positions = sorted({p for p, _ in vars_})
+    site_idx = {p: i + 1 for i, p in enumerate(positions)}
+    origin = positions[0] if positions else 0
+    sites = site_records(gene, coverage, positions, var_idx)
+    for s, pos in zip(sites, positions):
+        r = gene.region_at(pos)
+        s["keepall"] = bool(r and (r[1][0] == "e" or r[1] in ("utr3", "utr5", "up")))
+        s["pos"] -= origin
+    cn_solution = major_sol.cn_solution
+    struct_names = natsorted(cn_solution.solution)
+    cfg_names = list(struct_names)
+    for a in called:
+        if gene.alleles[a].cn_config not in cfg_names:
+            cfg_names.append(gene.alleles[a].cn_config)
+    cfg_idx = {n: i + 1 for i, n in enumerate(cfg_names)}
+    cfgs = []
+    for n in cfg_names:
+        cn = []
+        for pos in positions:
+            r = gene.region_at(pos)
+            cn.append(int(gene.cn_configs[n].cn[r[0]][r[1]]) if r else 0)
+        cfgs.append({"name": n, "cn": cn})
+    struct = [{"cfg": cfg_idx[n], "n": int(cn_solution.solution[n])} for n in struct_names]
+    maj_idx = {a: i + 1 for i, a in enumerate(called)}
+    majors = [{"name": a, "cfg": cfg_idx[gene.alleles[a].cn_config],
+               "core": sorted(var_idx[(m.pos, m.op)] for m in gene.alleles[a].func_muts)} for a in called]
+    minors, min_idx = [], {}
+    for a in called:
+        for mn in natsorted(gene.alleles[a].minors):
+            min_idx[a, mn] = len(minors) + 1
+            minors.append({"name": mn, "major": maj_idx[a],
+                           "silent": sorted(var_idx[(m.pos, m.op)] for m in gene.alleles[a].minors[mn].neutral_muts)})
+    call = sorted(maj_idx[sa.major] for sa, n in major_sol.solution.items() for _ in range(n))
+    res = []
+    for s in result:
+        copies = []
+        for sa in s.solution:
+            copies.append({"minor": min_idx.get((sa.major, sa.minor), 0),
+                           "added": sorted(var_idx.get((m.pos, m.op), 0) for m in sa.added),
+                           "missing": sorted(var_idx.get((m.pos, m.op), 0) for m in sa.missing)})
+        res.append({"score": fix(s.score), "copies": copies})
+    return {
+        "id": cid, "p": params(coverage.profile), "sites": sites,
+        "vars": [{"si": site_idx[p], "ins": op.startswith("ins"), "core": gene.mutations.get((p, op), (None,))[0] is not None,
+                  "pos": p - origin, "op": op} for p, op in vars_],
+        "cfgs": cfgs, "struct": struct, "majors": majors, "minors": minors, "call": call,
+        "result": res, "raised": raised, "enumerate": bool(enumerate_all),
+        "planted": [sorted(var_idx[(m.pos, m.op)] for m in cp if (m.pos, m.op) in var_idx) for cp in (planted or [])],
+    }
